@@ -80,7 +80,10 @@ type Proof struct {
 }
 
 func (p *Proof) IsValid(public Public) bool {
-	if p == nil {
+	if p == nil || p.group == nil || p.Commitment == nil || public.Prover == nil || public.Verifier == nil || public.Aux == nil {
+		return false
+	}
+	if !arith.IsValidNatModN(public.Aux.N(), p.E, p.S, p.F, p.T) {
 		return false
 	}
 	if !public.Verifier.ValidateCiphertexts(p.A) {
@@ -95,7 +98,7 @@ func (p *Proof) IsValid(public Public) bool {
 	if !arith.IsValidNatModN(public.Verifier.N(), p.W) {
 		return false
 	}
-	if p.Bx.IsIdentity() {
+	if curve.IsNilPoint(p.Bx) || p.Bx.IsIdentity() {
 		return false
 	}
 	return true
